@@ -495,6 +495,74 @@ func checkMirror(c *Check, p *Prog) {
 	}
 	ok := false
 	detail := "no walk loop"
+	// the direction test taken out of the walk: one loop under `forward` reading i, one under `!forward` reading n-1-i,
+	// with the same transfer
+	var walks []*LoopS
+	for _, it := range sum.Top.Items {
+		if l, isL := it.(*LoopS); isL && len(inputLoads(l, in)) > 0 {
+			walks = append(walks, l)
+		}
+	}
+	if len(walks) == 2 {
+		a, b := walks[0], walks[1]
+		if a.Guard != nil && b.Guard != nil && S.Implies(b.Guard, fwd) && S.Implies(a.Guard, S.Not(fwd)) {
+			a, b = b, a
+		}
+		twoOK := a.Guard != nil && b.Guard != nil && S.Implies(a.Guard, fwd) && S.Implies(b.Guard, S.Not(fwd)) &&
+			a.Trip == S.Op("max0", TInt, n) && b.Trip == S.Op("max0", TInt, n)
+		why := "two walk loops that are not `forward` / `!forward` walks over all n bits"
+		if twoOK {
+			iA, iB := S.SymTerm(a.Iter), S.SymTerm(b.Iter)
+			for _, l := range inputLoads(a, in) {
+				if l.Args[1] != iA {
+					twoOK, why = false, "the forward walk reads an index other than i"
+				}
+			}
+			for _, l := range inputLoads(b, in) {
+				if l.Args[1] != S.Sub(S.Sub(n, S.Int(1)), iB) {
+					twoOK, why = false, "the backward walk reads an index other than n-1-i"
+				}
+			}
+			ca, cb := nonAffine(a), nonAffine(b)
+			if len(ca) != len(cb) {
+				twoOK, why = false, "the two walks carry different state"
+			}
+			if twoOK {
+				sub := map[*Symbol]*Term{b.Iter: S.Sub(S.Sub(n, S.Int(1)), iA)}
+				for k := range cb {
+					var partner *Carried
+					for _, x := range ca {
+						if x.Name == cb[k].Name {
+							partner = x
+						}
+					}
+					if partner == nil || !termsAgree(S, partner.Init, cb[k].Init) {
+						twoOK, why = false, "the two walks start from different state"
+						break
+					}
+					sub[cb[k].Sym] = S.SymTerm(partner.Sym)
+				}
+				for k := range cb {
+					if !twoOK {
+						break
+					}
+					var partner *Carried
+					for _, x := range ca {
+						if x.Name == cb[k].Name {
+							partner = x
+						}
+					}
+					m := S.Subst(cb[k].Next, sub, map[*Term]*Term{})
+					// B at iteration i reads x[n-1-i]: with i -> n-1-i' it reads x[i'], as A does
+					if S.Canon2(m) != S.Canon2(partner.Next) && !termsAgree(S, m, partner.Next) {
+						twoOK, why = false, "the backward walk's transfer is not the forward walk's with x[n-1-i] for x[i]"
+					}
+				}
+			}
+		}
+		c.Expect(twoOK, "R-MIRROR", "CumulativeTest", p.Pos(fn.Pos()), "the forward walk reads index i, the backward walk n-1-i, over all n bits with the same transfer and initial state: backward on x is forward on reverse(x)", why)
+		return
+	}
 	if walk != nil && walk.Trip == S.Op("max0", TInt, n) {
 		iT := S.SymTerm(walk.Iter)
 		loads := inputLoads(walk, in)
